@@ -20,8 +20,8 @@ def bounded(tier, seed, fallback_for):
 
 MANIFEST = {
     "category": "exploration",
-    "technique": "bounded stand-in: the statement evaluated on generated program texts through the real lexers and pipeline (contract-based proof of the pipeline functions where listed in evidence)",
-    "text": 'Metamorphic relation of the statement checked on canonical programs (bounded).',
-    "note": 'bounded; Pygments assumed',
+    "technique": "contracts on the real pipeline functions discharged by z3/cvc5 (pyvc); bounded stand-in on generated program texts through the real lexers for the whole statement",
+    "text": 'Metamorphic relation of the statement on program texts (bounded): blank / whitespace-only / comment-only lines, trailing comments and trailing spaces are inserted and the report must keep names, order and lengths and shift lines by the insertions above; the same through the real scan command and its cache. Discharged for all inputs: filter_tokens drops exactly comments and whitespace, filter_nocl_comment_tokens keeps exactly the marker comments, scan_file measures code tokens only.',
+    "note": 'bounded; Pygments assumed; build_scopes/count_lines are assumed summaries',
     "design_ref": "DESIGN.md §6 C04",
 }
